@@ -37,11 +37,6 @@ theorem clean_idempotent (s : Str) : cleanStr (cleanStr s) = cleanStr s := by
   unfold cleanStr
   rw [cleanP_render _ (cleanP_good s)]
 
-/-- The string `Clean` returns is the string of its own cleaned form: splitting it at `/` gives
-    back exactly the cleaned elements (`cleanP` is a left inverse of rendering on clean paths). -/
-theorem clean_render_roundtrip (s : Str) : cleanP (cleanStr s) = cleanP s :=
-  cleanP_render _ (cleanP_good s)
-
 /-- **join_clean.** `Join(a, b)` with a non-empty `a` is `Clean(a + "/" + b)`, its elements are
     the cleaned concatenation of the two element lists (rootedness that of `a`), and every
     result of `Join` other than `""` is clean; empty arguments are ignored. -/
@@ -70,46 +65,6 @@ example : joinStr (b "root/") (b "/../x") = b "x" := by decide
 example : joinStr [] (b "/etc") = b "/etc" := by decide
 
 /-! ## Confinement -/
-
-/-- `isSubpath(root, sub)` accepting (`ok = true`, `err = nil`) implies `sub` lies inside `root`. -/
-theorem isSubpath_inside (root sub : Str) (h : isSubpath root sub = (true, true)) : inside root sub := by
-  unfold isSubpath at h
-  split at h
-  · simp at h
-  · rename_i rel hrel
-    unfold relStr at hrel
-    obtain ⟨rs, hrs, hj⟩ := Option.map_eq_some_iff.mp hrel
-    subst hj
-    have hok : hasUpPrefix (joinSep rs) = false ∧ joinSep rs ≠ dotdot := by
-      simp only [Prod.mk.injEq, Bool.and_eq_true, Bool.not_eq_eq_eq_not, Bool.not_true, bne_iff_ne,
-        ne_eq, and_true] at h
-      exact h
-    have hgr := cleanP_good root
-    have hdot : dot ∉ (cleanP root).segs := by
-      obtain ⟨k, names, h1, h2, _⟩ := hgr
-      rw [h1]
-      intro hm
-      simp only [List.mem_append, List.mem_replicate] at hm
-      rcases hm with ⟨_, hd⟩ | hm
-      · simp [dot, dotdot] at hd
-      · exact (h2 dot hm).1.2.1 rfl
-    obtain ⟨hroot, r, hseg, hhead⟩ := relSegs_accepted (cleanP root) (cleanP sub) rs hdot hrs hok
-    have hnames := good_suffix_names (cleanP sub) (cleanP_good sub) (cleanP root).segs r hseg hhead
-    exact ⟨hroot, r, hseg, fun hm => (hnames _ hm).1.2.2 rfl, fun hm => (hnames _ hm).1.2.1 rfl,
-      fun hm => (hnames _ hm).1.1 rfl⟩
-
-/-- `Resolve` opens at most one file, namely `Clean(Join(root, p))`, and only if `isSubpath`
-    accepts it; in every other case it returns an error and touches no file. -/
-theorem resolve_cases (root p : Str) :
-    (resolve root p = .opened (cleanStr (joinStr root p)) ∧
-      isSubpath root (cleanStr (joinStr root p)) = (true, true)) ∨
-    resolve root p = .rejected ∨ resolve root p = .relError := by
-  unfold resolve
-  simp only
-  split
-  · right; right; rfl
-  · right; left; rfl
-  · rename_i h; left; exact ⟨rfl, h⟩
 
 /-- **resolve_confined.** Whatever `root` and `p` are: if `Resolve` opens a file `q`, then `q` lies
     lexically inside the root — same rootedness as the cleaned root, the cleaned root's elements
@@ -163,30 +118,28 @@ theorem resolve_opens_clean (root p q : Str) (h : resolve root p = .opened q) :
   · rw [h1] at h; exact absurd h (by simp)
   · rw [h1] at h; exact absurd h (by simp)
 
-/-! ## The import statement and the code that configures the locator -/
+/-! ## The import statement and the code that configures the locator
 
-/-- **import_ignores_source_name.** The outcome of an import statement — the module reached and every
-    file opened on the way, through any number of nested imports — is the same under every source
-    name of the importing program (a name with directories, starting with `..`, absolute, equal to
-    a file outside the root): only the configured root and the import path take part. -/
-theorem import_ignores_source_name (fs : FS) (root : Str) (fuel : Nat) (src src' p : Str) :
-    importEval fs root fuel src p = importEval fs root fuel src' p := by
-  cases fuel <;> rfl
+These theorems are about the model INSTANTIATED WITH FACTS REGENERATED FROM THE TREE UNDER TEST on every
+run (`Ecal.Gen.C17`, go/ast over rt_general.go and cli/tool): which locator `importRuntime.Eval` calls
+`Resolve` on, what it hands to it, and what `CreateRuntimeProvider` uses as `Root`. A tree in which a
+fact is positively refuted breaks the `by decide` below. -/
 
-/-- **import_opens_only_inside.** Every string handed to `ReadFile` while an import statement is
-    evaluated — including those of nested imports, whatever the imported modules name — lies inside
-    the CONFIGURED root; in particular the result of `resolve` on the import path alone decides
-    the first file, and no other locator is ever consulted. -/
-theorem import_opens_only_inside (fs : FS) (root : Str) (fuel : Nat) (src p : Str) :
-    ∀ q ∈ (importEval fs root fuel src p).2, inside root q := by
+/-- If the receiver of `Resolve` is the configured locator, every string handed to `ReadFile` while an
+    import statement is evaluated — through any number of nested imports, whatever path value reaches
+    the locator, whatever the adversary does with the rest — lies inside the configured root. -/
+theorem import_opens_only_inside (F : ImportFacts) (hF : F.receiverIsConfiguredLocator = true)
+    (adv : Str → Str → Str → Str × Str) (fs : FS) (root : Str) (fuel : Nat) (src p : Str) :
+    ∀ q ∈ (importEval F adv fs root fuel src p).2, inside root q := by
   induction fuel generalizing src p with
   | zero => intro q hq; simp [importEval] at hq
   | succ fuel ih =>
     intro q hq
     unfold importEval at hq
+    simp only [hF, if_true] at hq
     split at hq
     · rename_i q0 hres
-      have hin := resolve_confined root p q0 hres
+      have hin := resolve_confined root _ q0 hres
       split at hq
       · simp only [List.mem_singleton] at hq; subst hq; exact hin
       · simp only [List.mem_singleton] at hq; subst hq; exact hin
@@ -195,6 +148,35 @@ theorem import_opens_only_inside (fs : FS) (root : Str) (fuel : Nat) (src p : St
         · exact hin
         · exact ih _ _ q hq
     · simp at hq
+
+/-- **import_statement_confined.** For the tree under test (facts of this run): every file opened by an
+    import statement, nested imports included, lies inside the root the provider was configured with —
+    for every source name, path value, file system and nesting depth. -/
+theorem import_statement_confined (adv : Str → Str → Str → Str × Str) (fs : FS) (root : Str) (fuel : Nat)
+    (src p : Str) : ∀ q ∈ (importEval Ecal.Gen.C17.importFacts adv fs root fuel src p).2, inside root q :=
+  import_opens_only_inside _ (by decide) adv fs root fuel src p
+
+/-- **import_ignores_source_name.** For the tree under test: the outcome of an import statement — the
+    module reached and every file opened — does not depend on the source name of the importing program
+    (a name with directories, starting with `..`, absolute, equal to a file outside the root), and not
+    on the adversary: only the configured root and the path value take part. -/
+theorem import_ignores_source_name (adv adv' : Str → Str → Str → Str × Str) (fs : FS) (root : Str) (fuel : Nat)
+    (src src' p : Str) :
+    importEval Ecal.Gen.C17.importFacts adv fs root fuel src p =
+      importEval Ecal.Gen.C17.importFacts adv' fs root fuel src' p := by
+  have h1 : Ecal.Gen.C17.importFacts.receiverIsConfiguredLocator = true := by decide
+  have h2 : Ecal.Gen.C17.importFacts.argumentIsPathValue = true := by decide
+  induction fuel generalizing src src' p with
+  | zero => rfl
+  | succ fuel ih =>
+    unfold importEval
+    simp only [h1, h2, if_true]
+    split
+    · split
+      · rfl
+      · rfl
+      · rw [ih p p]
+    · rfl
 
 /-- non-vacuity: a module inside the root that imports `../nm` does not get the file next to the
     root; one that imports `./nm` gets the root's `nm` whatever directory the module lies in. -/
@@ -205,24 +187,26 @@ example :
       else if q = b "root/nm" then some (.sentinel 0)
       else if q = b "nm" then some (.sentinel 1)
       else if q = b "root/sub/nm" then some (.sentinel 2) else none
-    importEval fs (b "root") 4 (b "../main.ecal") (b "sub/m") = (none, [b "root/sub/m"]) ∧
-    importEval fs (b "root") 4 (b "../main.ecal") (b "./sub/k") = (some 0, [b "root/sub/k", b "root/nm"]) := by
+    let F : ImportFacts := ⟨true, true⟩
+    importEval F (fun r _ p => (r, p)) fs (b "root") 4 (b "../main.ecal") (b "sub/m") = (none, [b "root/sub/m"]) ∧
+    importEval F (fun r _ p => (r, p)) fs (b "root") 4 (b "../main.ecal") (b "./sub/k") =
+      (some 0, [b "root/sub/k", b "root/nm"]) := by
   decide
 
-/-- **locator_roots_configured.** Regenerated on every run from the tree under test
-    (`harness C17 -tool extract`, go/ast, follows local definitions and same-package calls): no
-    `util.FileImportLocator` composite literal in cli, cli/tool, interpreter, util (outside tests)
-    takes its `Root` from a transformation whose error is discarded — such a root silently becomes
-    `""` (the process working directory) when the transformation fails, and every theorem above
-    would then speak about a root nobody configured. Three-valued: only a positively refuted root
-    breaks this; roots the extractor cannot follow are listed in `Gen.C17.notEstablished` and
-    amplify the tool / import cases of the same run. -/
-theorem locator_roots_configured : Ecal.Gen.C17.refuted = [] := by decide
+/-- without the receiver fact nothing is confined (the hypothesis of `import_opens_only_inside` is needed):
+    an implementation that derives a locator from the source name opens a file next to the root -/
+example :
+    let fs : FS := fun q => if q = b "nm" then some (.sentinel 1) else none
+    importEval ⟨false, true⟩ (fun _ _ p => (b "", p)) fs (b "root") 2 (b "../main.ecal") (b "./nm") = (some 1, [b "nm"]) := by
+  decide
 
-/-- the tool's locator root is the configured directory string itself (what the `T` cases tie to
-    `CLIInterpreter.CreateRuntimeProvider`): a missing or dangling directory stays the root, and
-    with it every import fails instead of falling back to another directory -/
-theorem tool_root_is_configured (dir : Str) : toolLocatorRoot dir = dir := rfl
+/-- **tool_root_is_configured.** For the tree under test: the locator `CreateRuntimeProvider` builds is
+    rooted at the configured directory string itself, whatever it is — a missing directory or a dangling
+    link stays the root (so every import fails there) instead of being replaced by another directory. -/
+theorem tool_root_is_configured (adv : Str → Str) (dir : Str) :
+    toolRoot Ecal.Gen.C17.toolRootIsDir adv dir = dir := by
+  have h : Ecal.Gen.C17.toolRootIsDir = true := by decide
+  simp [toolRoot, h]
 
 /-! ## What "inside" means in a directory tree -/
 
